@@ -35,62 +35,82 @@ Definition compatible (r nr : row) : bool :=
 Definition null_row (bs : list str) (r : row) : row :=
   map (fun k => (k, CNull)) (filter (fun k => negb (has r k)) bs).
 
+(* addSpecifiedData works on a private copy of the clause and assigns S, P, O from the row, in this order:
+   S from the subject binding / alias (a node);
+   P from the anchor binding (a time, giving a temporal predicate with the clause's id), else from the predicate binding /
+     alias (a predicate), and - only when the anchor did not give it - the time bounds are updated from the row;
+   O likewise (anchor binding, else cellToObject of the object binding / alias), then the bounds again.
+   updateTimeBoundsForRow reads only the bound fields of the clause, which are never assigned. *)
+Definition spec_S (c : clause) (r : row) : option node :=
+  match cS c with
+  | Some s => Some s
+  | None => match bound_value r (cSB c) (cSA c) with
+            | Some (CNode n) => Some n
+            | _ => None
+            end
+  end.
+
+Definition spec_P_anchor (c : clause) (r : row) : option pred :=
+  match cP c with
+  | Some p => Some p
+  | None => if negb (is_empty (cPID c)) && negb (is_empty (cPAncB c))
+            then match get r (cPAncB c) with
+                 | Some (CTime t) => Some (mkPred (cPID c) (Some t))
+                 | _ => None
+                 end
+            else None
+  end.
+
+Definition spec_P (c : clause) (r : row) (pa : option pred) : option pred :=
+  match pa with
+  | Some p => Some p
+  | None => match bound_value r (cPB c) (cPA c) with
+            | Some (CPred p) => Some p
+            | _ => None
+            end
+  end.
+
+Definition spec_O_anchor (c : clause) (r : row) : option obj :=
+  match cO c with
+  | Some o => Some o
+  | None => if negb (is_empty (cOID c)) && negb (is_empty (cOAncB c))
+            then match get r (cOAncB c) with
+                 | Some (CTime t) => Some (OPred (mkPred (cOID c) (Some t)))
+                 | _ => None
+                 end
+            else None
+  end.
+
+Definition spec_O (e : cfg) (c : clause) (r : row) (oa : option obj) : objres :=
+  match oa with
+  | Some o => ObjOk o
+  | None => match bound_value r (cOB c) (cOA c) with
+            | Some v => cell_to_object e v
+            | None => ObjNone
+            end
+  end.
+
+Definition objres_opt (x : objres) : option obj := match x with ObjOk o => Some o | _ => None end.
+
 (* addSpecifiedData: returns the rows appended to the plan's table *)
 Definition add_specified_data (e : cfg) (gs : list graph) (lo : lopts) (c : clause) (r : row) : outcome (list row) :=
-  let c1 := match cS c with
-            | None => match bound_value r (cSB c) (cSA c) with
-                      | Some (CNode n) => with_S c n
-                      | _ => c
-                      end
-            | Some _ => c
-            end in
-  let c2 := match cP c1 with
-            | None => if negb (is_empty (cPID c1)) && negb (is_empty (cPAncB c1))
-                      then match get r (cPAncB c1) with
-                           | Some (CTime t) => with_P c1 (mkPred (cPID c1) (Some t))
-                           | _ => c1
-                           end
-                      else c1
-            | Some _ => c1
-            end in
-  bind (match cP c2 with
-        | None =>
-            let c3 := match bound_value r (cPB c2) (cPA c2) with
-                      | Some (CPred p) => with_P c2 p
-                      | _ => c2
-                      end in
-            bind (update_time_bounds_for_row e lo c3 r) (fun lo' => Ok (c3, lo'))
-        | Some _ => Ok (c2, lo)
+  let pa := spec_P_anchor c r in
+  bind (match pa with
+        | None => update_time_bounds_for_row e lo c r
+        | Some _ => Ok lo
         end)
-  (fun cl3 =>
-   let c3 := fst cl3 in
-   let lo3 := snd cl3 in
-   let c4 := match cO c3 with
-             | None => if negb (is_empty (cOID c3)) && negb (is_empty (cOAncB c3))
-                       then match get r (cOAncB c3) with
-                            | Some (CTime t) => with_O c3 (OPred (mkPred (cOID c3) (Some t)))
-                            | _ => c3
-                            end
-                       else c3
-             | Some _ => c3
-             end in
-   bind (match cO c4 with
-         | None =>
-             let res := match bound_value r (cOB c4) (cOA c4) with
-                        | Some v => cell_to_object e v
-                        | None => ObjNone
-                        end in
-             let c5 := match res with ObjOk o => with_O c4 o | _ => c4 end in
-             let inv := match res with ObjInvalid => true | _ => false end in
-             bind (update_time_bounds_for_row e lo3 c5 r) (fun lo' => Ok (c5, lo', inv))
-         | Some _ => Ok (c4, lo3, false)
+  (fun lo3 =>
+   let oa := spec_O_anchor c r in
+   let ores := spec_O e c r oa in
+   bind (match oa with
+         | None => update_time_bounds_for_row e lo3 c r
+         | Some _ => Ok lo3
          end)
-   (fun x =>
-    let c5 := fst (fst x) in
-    let lo5 := snd (fst x) in
-    let inv := snd x in
-    if inv then Panic SiteStrObject
-    else
+   (fun lo5 =>
+    match ores with
+    | ObjInvalid => Panic SiteStrObject
+    | _ =>
+      let c5 := with_SPO c (spec_S c r) (spec_P c r pa) (objres_opt ores) in
       bind (simple_fetch e gs c5 lo5) (fun rows =>
         let rows' := if fix14 e then filter (compatible r) rows else rows in
         match rows' with
@@ -102,7 +122,8 @@ Definition add_specified_data (e : cfg) (gs : list graph) (lo : lopts) (c : clau
                            end)
                 else Ok []
         | _ => Ok (map (fun nr => merge_rows r nr) rows')
-        end))).
+        end)
+    end)).
 
 (* specifyClauseWithTable: one addSpecifiedData per row. The Go code runs them concurrently and appends in completion
    order; the model folds in row order (see C14: the resulting multiset does not depend on the order). *)
